@@ -21,7 +21,7 @@ def unhex(s):
     return struct.unpack(">d", bytes.fromhex(s))[0]
 
 
-def make_case(rng, LA, LB, branch, ecpL=None, benign=False, twin=None):
+def make_case(rng, LA, LB, branch, ecpL=None, benign=False, twin=None, across=False):
     """three atoms (0: shell A, 1: shell B, 2: ECP); coincident centres get bit-identical coordinates"""
     def pt(scale=1.0):
         return [round(rng.uniform(-1.6, 1.6) * scale, 3) for _ in range(3)]
@@ -47,6 +47,13 @@ def make_case(rng, LA, LB, branch, ecpL=None, benign=False, twin=None):
     A, B = special(A), special(B)
     if sum((a - b) ** 2 for a, b in zip(A, B)) < 0.05:
         B = away()
+    if across:
+        # two shells without diffuse primitives 5-6 bohr apart on opposite sides of the ECP: their mutual overlap is negligible, the
+        # semi-local part still couples them through the ECP centre (nothing may be dropped because the SHELLS are far from each other)
+        d = [rng.uniform(-0.4, 0.4), rng.uniform(-0.4, 0.4), rng.uniform(2.5, 3.0)]
+        e = [rng.uniform(-0.4, 0.4), rng.uniform(-0.4, 0.4), rng.uniform(2.5, 3.0)]
+        A = [round(C[i] + d[i], 3) for i in range(3)]
+        B = [round(C[i] - e[i], 3) for i in range(3)]
     if branch in ("A=C", "A=B=C"):
         A = list(C)
     if branch in ("B=C", "A=B=C"):
@@ -58,13 +65,15 @@ def make_case(rng, LA, LB, branch, ecpL=None, benign=False, twin=None):
         # whatever the coefficients are, and a shortcut keyed on the exponents alone cannot show
         n = rng.choice([1, 1, 2]) if nmin == 1 else rng.choice([2, 2, 3])
         lo, hi = (-0.1, 0.6) if benign else (-0.5, 0.9)
+        if across:
+            lo, hi = 0.35, 1.2
         return "shell %d %d %d %s" % (atom, l, n, " ".join("%r %r" % (round(10 ** rng.uniform(lo, hi), 4), round(rng.choice([-1, 1]) * rng.uniform(0.3, 1.3), 4)) for _ in range(n)))
     L = ecpL if ecpL is not None else rng.choice([1, 2, 2, 3])
     prims = []
     for l in range(L + 1):
         for _ in range(rng.choice([1, 1, 2])):
             n = 2 if benign else rng.choice([2, 2, 2, 1, 0])
-            prims.append("%d %d %r %r" % (n, l, round(10 ** rng.uniform(-0.2, 0.6), 4), round(rng.uniform(-3, 5), 4)))
+            prims.append("%d %d %r %r" % (n, l, round(10 ** (rng.uniform(-0.9, -0.3) if across and l < L else rng.uniform(-0.2, 0.6)), 4), round(rng.uniform(-3, 5), 4)))
     shA, shB = shell(0, LA, 2 if (twin and LA == LB) else 1), shell(1, LB)
     if twin and LA == LB:
         # general contraction: the second shell has the exponents of the first; "same" also copies the coefficients
